@@ -410,6 +410,10 @@ func (sc *scenario) mkArg(o optSpecC) am.Arg {
 		})
 	case "gennil":
 		return am.ConverterGen(func(v am.Value) (*am.Func, error) { return nil, nil })
+	case "gennilfunc":
+		return am.ConverterGen(nil) // a nil generator function
+	case "loggernil":
+		return am.Logger(nil)
 	case "namednil":
 		return am.Named(o.Name, nil)
 	case "convnil":
@@ -499,6 +503,8 @@ func (o optSpecC) line() string {
 		return fmt.Sprintf("opt gen rule %d ty=%d name=%s fid=%d mode=%s", o.Vid, o.Ty, n, o.Fids[0], o.Sub)
 	case "gennil":
 		return "opt gen nil"
+	case "gennilfunc", "loggernil":
+		return "opt other " + o.Kind
 	case "conv", "convfunc":
 		var s []string
 		for _, id := range o.Fids {
